@@ -303,6 +303,34 @@ def dstOperandOf (addr : BitVec 32) (reg : BitVec 4) (ad : Bool) (count : Nat) (
   else if reg = 2 then .abs (u16 e)
   else .indexed (s16 e) reg
 
+/-- The instruction the text of `disasm addr w0 w1 w2 _` shows for a word that is not an extension word — after
+    the `--` of an alias comment if there is one — as a statement of the 16-bit core; `none` for jumps (their
+    text carries an `(offset: n)` suffix), for `???` and for the MSP430X row types. -/
+def reading (addr : BitVec 32) (w0 w1 w2 : BitVec 16) : Option Asm.Stmt :=
+  match findRow w0 with
+  | none => none
+  | some r =>
+    let bw : Bool := w0 &&& 0x40 ≠ 0
+    let as : BitVec 2 := w0.extractLsb' 4 2
+    if r.type = OP_NONE then some ⟨r.instr, 0, []⟩
+    else if r.type = OP_ONE_OPERAND ∨ r.type = OP_ONE_OPERAND_W ∨ r.type = OP_ONE_OPERAND_X then
+      let odd : Bool := w0.extractLsb' 7 3 &&& 1 = 1
+      some ⟨r.instr, if bw then 8 else if odd then 0 else 16, [srcOperandOf addr (w0.extractLsb' 0 4) as w1]⟩
+    else if r.type = OP_TWO_OPERAND then
+      let src : BitVec 4 := w0.extractLsb' 8 4
+      let n := (srcText addr src as bw none false w1).2
+      some ⟨r.instr, if bw then 8 else 16,
+        [srcOperandOf addr src as w1,
+         dstOperandOf addr (w0.extractLsb' 0 4) (w0.extractLsb' 7 1 = 1) n (if n = 0 then w1 else w2)]⟩
+    else none
+
+/-- the text has an alias comment in front (`nop   --  mov.w #0, CG`): only two-operand texts without an
+    extension word get one -/
+def commented (w0 w1 : BitVec 16) : Bool :=
+  match findRow w0 with
+  | some r => r.type = OP_TWO_OPERAND && (aliasComment w0 (w0 &&& 0x40 ≠ 0) w1).isSome
+  | none => false
+
 /-- The statement that the text of `disasm addr w0 w1 w2 _` is to `parse_instruction_msp430` under `.msp430`,
     or `none` when that text is rejected: texts with a `--` comment or an `(offset: n)` suffix, `???`, `reta`,
     every MSP430X mnemonic (`mova`, `calla`, `pushm`, …, the `…x` forms and `rpt` prefixes: unknown
@@ -314,25 +342,8 @@ def toStmt (addr : BitVec 32) (w0 w1 w2 : BitVec 16) : Option Asm.Stmt :=
     | some r =>
       if r.type = OP_NONE ∧ ¬ (w0 &&& 0xfeb0 = 0x1800 ∨ w0 &&& 0xfeb0 = 0x1880) then some ⟨r.instr, 0, []⟩ else none
     | none => none
-  else
-    match findRow w0 with
-    | none => none
-    | some r =>
-      let bw : Bool := w0 &&& 0x40 ≠ 0
-      let as : BitVec 2 := w0.extractLsb' 4 2
-      if r.type = OP_NONE then some ⟨r.instr, 0, []⟩
-      else if r.type = OP_ONE_OPERAND ∨ r.type = OP_ONE_OPERAND_W ∨ r.type = OP_ONE_OPERAND_X then
-        let odd : Bool := w0.extractLsb' 7 3 &&& 1 = 1
-        some ⟨r.instr, if bw then 8 else if odd then 0 else 16, [srcOperandOf addr (w0.extractLsb' 0 4) as w1]⟩
-      else if r.type = OP_TWO_OPERAND then
-        if (aliasComment w0 bw w1).isSome then none
-        else
-          let src : BitVec 4 := w0.extractLsb' 8 4
-          let n := (srcText addr src as bw none false w1).2
-          some ⟨r.instr, if bw then 8 else 16,
-            [srcOperandOf addr src as w1,
-             dstOperandOf addr (w0.extractLsb' 0 4) (w0.extractLsb' 7 1 = 1) n (if n = 0 then w1 else w2)]⟩
-      else none
+  else if commented w0 w1 then none
+  else reading addr w0 w1 w2
 
 /-! ### the range loop `disasm_range_msp430_both` -/
 
